@@ -485,7 +485,7 @@ func (c *conn) processMultiple(l cout.Log, h connServer, a string, n *com.Packet
 			if cout.Enabled {
 				l.Debug(`[%s:%s/M] %s: Received an Oneshot Packet "%s".`, h.prefix(), v.Device, a, v)
 			}
-			if err := h.notify(c.host, &v); err != nil {
+			if err := h.notify(nil, &v); err != nil {
 				if cout.Enabled {
 					l.Error("[%s:%s/M] %s: Error processing Oneshot Packet: %s!", h.prefix(), v.Device, a, err.Error())
 				}
